@@ -1416,6 +1416,10 @@ class Container:
                         break
         if any(x <= 0 for x in xs):
             raise ValueError("Solution is impossible to create.")
+        # (the solvent is what a stated total leaves over: when the solutes make up that total by themselves - '600 kg' and
+        # '400 kg' in '1000 kg' - it comes out as the cancellation noise of the difference, of either sign)
+        if total_quantity is not None and abs(a[index][n] * xs[n]) <= 1e-12 * abs(b[index]):
+            raise ValueError("Solution is impossible to create. (The solutes leave no room for the solvent.)")
         # an amount that vanishes when stored (rounded to the internal precision) is not a solution either
         for x, substance in zip(xs, solute + [solvent]):
             stored = round(x, config.internal_precision) if substance.is_enzyme() else Unit.convert_to_storage(x, 'mol')
